@@ -162,7 +162,15 @@ def gen_children(rng, schema, type_, depth, budget):
             break
         kids.append(child)
         match = e.next
-    return Fragment.from_array(kids) if kids else Fragment.empty
+    # adjacent text children with equal marks are merged here, by the generator itself, so that a generated document does
+    # not depend on the library's own merging (Fragment.from_array) being right
+    merged = []
+    for k in kids:
+        if merged and k.is_text and merged[-1].is_text and Mark.same_set(k.marks, merged[-1].marks):
+            merged[-1] = schema.text(merged[-1].text + k.text, merged[-1].marks)
+        else:
+            merged.append(k)
+    return Fragment.from_array(merged) if merged else Fragment.empty
 
 
 def gen_node(rng, schema, type_, parent_type, depth, budget):
